@@ -392,6 +392,19 @@ def _elem_term(it, site, n, symbolic_index=False):
         return ("tuple", (idx, _elem_term(it[2][0], site, n)))
     if it[0] == "call" and it[1] == ("ext", "zip") and it[2] and not it[3]:
         return ("tuple", tuple(_elem_term(x, site, n, symbolic_index) for x in it[2]))
+    if it[0] == "comp" and it[1] in ("list", "gen") and len(it[3]) == 1 and not it[3][0][2]:
+        # the n-th element of [ELT for T in X] (no filter) is ELT with T bound to the n-th element of X
+        gel, git, _ = it[3][0]
+        if gel[0] == "elem":
+            new = _elem_term(git, gel[2], n, symbolic_index)
+
+            def sub(x):
+                if x == gel:
+                    return new
+                if isinstance(x, tuple):
+                    return tuple(sub(y) for y in x)
+                return x
+            return sub(it[2])
     return ("elem", it, site, n)
 
 
